@@ -297,7 +297,31 @@ func runC10(c *Ctx) {
 		}
 		text := asm.Perturb(lines, set, d, r)
 		var texts []string
-		if r.Chance(1, 4) && len(text) <= 1500 {
+		if idx%4001 == 4000 {
+			// a load file of more than 1 MiB (up to ~5 MiB): every line must still be accounted for
+			body := strings.Join(asm.PrintLoadFile(code, start, d, m, 0, r), "\n") + "\n"
+			lines := strings.Split(strings.TrimRight(body, "\n"), "\n")
+			var instr []string
+			for _, l := range lines {
+				t := strings.ToUpper(strings.TrimSpace(l))
+				if !strings.HasPrefix(t, "ORG") && !strings.HasPrefix(t, "END") {
+					instr = append(instr, l)
+				}
+			}
+			var b strings.Builder
+			if d == asm.D94 {
+				b.WriteString("       ORG      0\n")
+			}
+			want := (1<<20)/len(instr[0]) + r.Range(10, 4*(1<<20)/len(instr[0]))
+			for i := 0; i < want; i++ {
+				b.WriteString(instr[i%len(instr)])
+				b.WriteByte('\n')
+			}
+			b.WriteString("       END\n")
+			texts = []string{b.String()}
+			kind = "bigger-than-1MiB"
+			c.Inc("inputs_above_1MiB")
+		} else if r.Chance(1, 4) && len(text) <= 1500 {
 			// truncation at EVERY byte of this file
 			for k := 0; k <= len(text); k++ {
 				texts = append(texts, text[:k])
